@@ -27,6 +27,7 @@ static const Frag FRAGS[] = {
  {"privstr",   "", "$a = \"privstr\" private\n    $b = \"pubstr\"",    "$a and $b",                   "privstr pubstr", "private_string"},
  {"hexjump",   "", "$a = { 11 22 [2-4] 33 44 }",                       "$a",                          "\\x11\\x22\\x00\\x00\\x00\\x33\\x44", "hex jump"},
  {"hexchain",  "", "$a = { AA BB CC DD [300-400] EE FF 99 88 }",       "$a",                          "\\xaa\\xbb\\xcc\\xdd@Z350@\\xee\\xff\\x99\\x88", "hex chained"},
+ {"hexchain3", "", "$a = { A1 B2 C3 D4 [300-400] E5 F6 97 86 [250-350] 15 26 37 48 }", "$a",                     "\\xa1\\xb2\\xc3\\xd4@Z350@\\xe5\\xf6\\x97\\x86@Z300@\\x15\\x26\\x37\\x48", "hex chained three_fragments"},
  {"hexalt",    "", "$a = { 4D 5A ?? ( 90 | 91 92 ) ?0 }",              "$a",                          "\\x4d\\x5a\\x07\\x91\\x92\\x30", "hex alt wildcard"},
  {"hexneg",    "", "$a = { C7 ~00 C8 [1-] C9 CA }",                    "$a",                          "\\xc7\\x01\\xc8\\x05\\x05\\xc9\\xca", "hex negation unbounded"},
  {"regreedy",  "", "$a = /reg[0-9]{2,5}ex+/",                          "$a",                          "reg123exxx", "regex greedy"},
